@@ -13,7 +13,7 @@ use std::sync::OnceLock;
 use bytes::Bytes;
 use proptest::prelude::*;
 use rpki::crypto::DigestAlgorithm;
-use rpki::repository::manifest::{Manifest, ManifestHash};
+use rpki::repository::manifest::{Manifest, ManifestContent, ManifestHash};
 use rpki::uri;
 use serde::{Deserialize, Serialize};
 use serde_json::json;
@@ -256,6 +256,137 @@ fn names_content(c: &Names) -> (Vec<u8>, Vec<(Vec<u8>, Vec<u8>, u8)>, TimeEnc, T
     (der::manifest_content(&c.number, this, next, &list, false), enc, this, next)
 }
 
+/// The manifest eContent of a case in BER dress: style 1 writes every file
+/// name, hash and entry with a long-form length, style 2 gives the entries an
+/// indefinite length. (Only a BER-mode decoder may accept these.)
+fn ber_content(c: &Names, style: u8) -> Vec<u8> {
+    let long = |tag: u8, body: &[u8]| -> Vec<u8> {
+        let mut v = vec![tag];
+        if body.len() < 256 {
+            v.extend_from_slice(&[0x81, body.len() as u8]);
+        } else {
+            v.extend_from_slice(&[0x82, (body.len() >> 8) as u8, body.len() as u8]);
+        }
+        v.extend_from_slice(body);
+        v
+    };
+    let mut list = Vec::new();
+    for e in &c.entries {
+        let (h, u) = e.hash_bytes();
+        let mut bits = vec![u];
+        bits.extend_from_slice(&h);
+        if e.name.len() > 60_000 || bits.len() > 60_000 {
+            return der::manifest_content(&c.number, TimeEnc::new(c.this_update, c.this_generalized), TimeEnc::new(c.next_update, c.next_generalized), &[], false);
+        }
+        if style == 1 {
+            let body = [long(0x16, &e.name), long(0x03, &bits)].concat();
+            list.extend_from_slice(&long(0x30, &body));
+        } else {
+            list.push(0x30);
+            list.push(0x80);
+            list.extend_from_slice(&der::ia5(&e.name));
+            list.extend_from_slice(&der::tlv(0x03, &bits));
+            list.extend_from_slice(&[0, 0]);
+        }
+    }
+    der::seq(&[
+        der::int_unsigned(&c.number),
+        TimeEnc::new(c.this_update, c.this_generalized).encode(),
+        TimeEnc::new(c.next_update, c.next_generalized).encode(),
+        der::oid(oids::SHA256),
+        der::tlv(0x30, &list),
+    ])
+}
+
+/// Everything the statement says about a decoded manifest content.
+fn check_content(
+    what: &str,
+    mc: &ManifestContent,
+    c: &Names,
+    enc: &[(Vec<u8>, Vec<u8>, u8)],
+    base: &uri::Rsync,
+    base_dir: &uri::Rsync,
+) -> CheckResult {
+    check_content_inner(mc, c, enc, base, base_dir).map_err(|f| Fail::sig(f.sig, format!("{}: {}", what, f.msg)))
+}
+
+fn check_content_inner(
+    mc: &ManifestContent,
+    c: &Names,
+    enc: &[(Vec<u8>, Vec<u8>, u8)],
+    base: &uri::Rsync,
+    base_dir: &uri::Rsync,
+) -> CheckResult {
+    ensure_eq!(mc.len(), c.entries.len(), "len()");
+    ensure_eq!(mc.is_empty(), c.entries.is_empty(), "is_empty()");
+    let items = no_panic("FileListIter", || mc.iter().map(|f| f.into_pair()).collect::<Vec<_>>())?;
+    ensure_eq!(items.len(), mc.len(), "number of items from iter() vs len()");
+    for (i, (n, h)) in items.iter().enumerate() {
+        ensure_eq!(n.as_ref(), enc[i].0.as_slice(), "file name {} as returned by iter()", i);
+        ensure_eq!(h.as_ref(), enc[i].1.as_slice(), "hash {} as returned by iter()", i);
+    }
+    ensure!(mc.this_update() <= mc.next_update(), "this_update() after next_update()");
+    ensure_eq!(mc.this_update(), lib_time(c.this_update), "this_update()");
+    ensure_eq!(mc.next_update(), lib_time(c.next_update), "next_update()");
+    let uris = no_panic("iter_uris", || mc.iter_uris(&base).collect::<Vec<_>>())?;
+    ensure_eq!(uris.len(), c.entries.len(), "number of items from iter_uris()");
+    for (i, (u, h)) in uris.iter().enumerate() {
+        let name = &enc[i].0;
+        let reparsed = uri::Rsync::from_str(u.as_str());
+        ensure!(reparsed.as_ref().ok() == Some(u), "URI {} from iter_uris does not re-parse to itself", u);
+        let mut want = base_dir.as_str().as_bytes().to_vec();
+        want.extend_from_slice(name);
+        ensure_eq!(u.as_slice(), want.as_slice(), "URI of entry {}", i);
+        ensure!(u.parent().as_ref() == Some(&base_dir), "parent() of {} is {:?}, not the base directory {}", u, u.parent().map(|p| p.to_string()), base_dir);
+        ensure!(base.is_parent_of(u), "base {} is not parent of {}", base, u);
+        ensure!(base_dir.is_parent_of(u), "base directory {} is not parent of {}", base_dir, u);
+        ensure!(!u.path_is_dir(), "URI {} names a directory", u);
+        // hash verification
+        let e = &c.entries[i];
+        let real = keys::sha256(&e.data);
+        let expect_ok = enc[i].1.as_slice() == real.as_slice() && enc[i].2 == 0;
+        let undecided = enc[i].1.as_slice() == real.as_slice() && enc[i].2 != 0;
+        let got = h.verify(&e.data).is_ok();
+        ensure!(undecided || got == expect_ok, "ManifestHash::verify for entry {} ({:?}): {} expected {}", i, e.hash, got, expect_ok);
+        // and against other data
+        let mut other = e.data.clone();
+        other.push(0);
+        ensure!(h.verify(&other).is_err() || enc[i].1.as_slice() == keys::sha256(&other).as_slice(), "hash verifies against other data");
+        ensure_eq!(h.as_slice(), enc[i].1.as_slice(), "ManifestHash::as_slice of entry {}", i);
+        // a hash built from the listed bytes behaves the same
+        let mh = ManifestHash::new(Bytes::copy_from_slice(&enc[i].1), DigestAlgorithm::sha256());
+        ensure!(mh.verify(&e.data).is_ok() == got, "ManifestHash::new(..).verify differs");
+    }
+    // the reported length also equals what the iterators' adaptors say (count, last, nth, skip,
+    // size_hint - before and after the iterator has been advanced)
+    // (complete laws for lists of up to 24 entries; the counting adaptors for all)
+    no_panic("FileListIter adaptors", || crate::iterlaws::check_debug("ManifestContent::iter()", "c14:iterator-laws", 24, || mc.iter()))??;
+    no_panic("iter_uris adaptors", || crate::iterlaws::check_debug("ManifestContent::iter_uris()", "c14:iterator-laws", 24, || mc.iter_uris(base)))??;
+    let n = c.entries.len();
+    no_panic("FileListIter counting adaptors", || -> CheckResult {
+        for k in [0usize, 1, n / 2, n] {
+            if k > n {
+                continue;
+            }
+            let mut it = mc.iter();
+            for _ in 0..k {
+                it.next();
+            }
+            let (lo, hi) = it.size_hint();
+            ensure_sig!(lo <= n - k && hi.map(|h| h >= n - k).unwrap_or(true), "c14:iterator-laws",
+                "iter().size_hint() = ({}, {:?}) after {} of {} entries", lo, hi, k, n);
+            let cnt = it.count();
+            ensure_sig!(cnt == n - k, "c14:iterator-laws", "iter().count() after {} next() calls = {}, {} entries remain (len() = {})", k, cnt, n - k, mc.len());
+            let cnt = mc.iter().skip(k).count();
+            ensure_sig!(cnt == n - k, "c14:iterator-laws", "iter().skip({}).count() = {}, expected {}", k, cnt, n - k);
+            let cnt = mc.iter_uris(base).skip(k).count();
+            ensure_sig!(cnt == n - k, "c14:iterator-laws", "iter_uris().skip({}).count() = {}, expected {}", k, cnt, n - k);
+        }
+        Ok(())
+    })??;
+    Ok(())
+}
+
 fn run_names(c: &Names, obs: &mut Obs) -> CheckResult {
     let (content, enc, this, next) = names_content(c);
     let bytes = wrap(&content);
@@ -324,46 +455,28 @@ fn run_names(c: &Names, obs: &mut Obs) -> CheckResult {
     let mut base_dir = base.clone();
     base_dir.path_into_dir();
     for m in &decoded {
-        let mc = m.content();
-        ensure_eq!(mc.len(), c.entries.len(), "len()");
-        ensure_eq!(mc.is_empty(), c.entries.is_empty(), "is_empty()");
-        let items = no_panic("FileListIter", || mc.iter().map(|f| f.into_pair()).collect::<Vec<_>>())?;
-        ensure_eq!(items.len(), mc.len(), "number of items from iter() vs len()");
-        for (i, (n, h)) in items.iter().enumerate() {
-            ensure_eq!(n.as_ref(), enc[i].0.as_slice(), "file name {} as returned by iter()", i);
-            ensure_eq!(h.as_ref(), enc[i].1.as_slice(), "hash {} as returned by iter()", i);
-        }
-        ensure!(mc.this_update() <= mc.next_update(), "this_update() after next_update()");
-        ensure_eq!(mc.this_update(), lib_time(c.this_update), "this_update()");
-        ensure_eq!(mc.next_update(), lib_time(c.next_update), "next_update()");
-        let uris = no_panic("iter_uris", || mc.iter_uris(&base).collect::<Vec<_>>())?;
-        ensure_eq!(uris.len(), c.entries.len(), "number of items from iter_uris()");
-        for (i, (u, h)) in uris.iter().enumerate() {
-            let name = &enc[i].0;
-            let reparsed = uri::Rsync::from_str(u.as_str());
-            ensure!(reparsed.as_ref().ok() == Some(u), "URI {} from iter_uris does not re-parse to itself", u);
-            let mut want = base_dir.as_str().as_bytes().to_vec();
-            want.extend_from_slice(name);
-            ensure_eq!(u.as_slice(), want.as_slice(), "URI of entry {}", i);
-            ensure!(u.parent().as_ref() == Some(&base_dir), "parent() of {} is {:?}, not the base directory {}", u, u.parent().map(|p| p.to_string()), base_dir);
-            ensure!(base.is_parent_of(u), "base {} is not parent of {}", base, u);
-            ensure!(base_dir.is_parent_of(u), "base directory {} is not parent of {}", base_dir, u);
-            ensure!(!u.path_is_dir(), "URI {} names a directory", u);
-            // hash verification
-            let e = &c.entries[i];
-            let real = keys::sha256(&e.data);
-            let expect_ok = enc[i].1.as_slice() == real.as_slice() && enc[i].2 == 0;
-            let undecided = enc[i].1.as_slice() == real.as_slice() && enc[i].2 != 0;
-            let got = h.verify(&e.data).is_ok();
-            ensure!(undecided || got == expect_ok, "ManifestHash::verify for entry {} ({:?}): {} expected {}", i, e.hash, got, expect_ok);
-            // and against other data
-            let mut other = e.data.clone();
-            other.push(0);
-            ensure!(h.verify(&other).is_err() || enc[i].1.as_slice() == keys::sha256(&other).as_slice(), "hash verifies against other data");
-            ensure_eq!(h.as_slice(), enc[i].1.as_slice(), "ManifestHash::as_slice of entry {}", i);
-            // a hash built from the listed bytes behaves the same
-            let mh = ManifestHash::new(Bytes::copy_from_slice(&enc[i].1), DigestAlgorithm::sha256());
-            ensure!(mh.verify(&e.data).is_ok() == got, "ManifestHash::new(..).verify differs");
+        check_content("Manifest::decode", m.content(), c, &enc, &base, &base_dir)?;
+    }
+
+    // The content is also decodable on its own (ManifestContent::take_from is public, in DER
+    // and in BER mode): the same rules hold for what that entry point lets through.
+    let forms: [(&str, bcder::Mode, Vec<u8>); 4] = [
+        ("ManifestContent::take_from (DER mode)", bcder::Mode::Der, content.clone()),
+        ("ManifestContent::take_from (BER mode)", bcder::Mode::Ber, content.clone()),
+        ("ManifestContent::take_from (BER mode, long-form lengths)", bcder::Mode::Ber, ber_content(c, 1)),
+        ("ManifestContent::take_from (BER mode, indefinite-length entries)", bcder::Mode::Ber, ber_content(c, 2)),
+    ];
+    for (what, mode, bytes) in forms {
+        let canonical = bytes == content;
+        match no_panic(what, || mode.decode(bytes.as_slice(), ManifestContent::take_from))? {
+            Ok(mc) => {
+                ensure_sig!(names_ok, "c14:content-entry-point", "{} accepted file name(s) that are not a single RFC 9286 segment: {:?}",
+                    what, bad.iter().map(|n| String::from_utf8_lossy(n).into_owned()).collect::<Vec<_>>());
+                ensure_sig!(order_ok, "c14:content-entry-point", "{} accepted thisUpdate {} after nextUpdate {}", what, c.this_update, c.next_update);
+                obs.label_if(!canonical, "ber-content-decoded");
+                check_content(what, &mc, c, &enc, &base, &base_dir)?;
+            }
+            Err(e) => ensure_sig!(!(canonical && should_decode && all_generalized), "c14:content-entry-point", "{} rejected conformant content: {}", what, e),
         }
     }
     Ok(())
